@@ -21,13 +21,15 @@ LEVEL_TEXT = ("Coq theorems over executable models of (1) the HDF5 store with h5
               "code as it stands, for a hyper-parameter whose value is None (dropped); (2) a heap model of copy/deepcopy: copies observe "
               "the source's values, a deep copy lives in freshly allocated cells closed under reachability and no mutation of them is visible "
               "through the source; (3) VCF import (positionally exact; with grouping a stable sort + run-length metadata) and the data-frame "
-              "codecs (Morgan genetic maps lossless; refutations for cM rounding, breeding-value location/scale, sorted variance-matrix labels, "
-              "absent labels, default arguments on the two sides of the genetic-map codecs, marker names through the egmap file pair, the "
-              "interpolation kind given to the ExtendedGeneticMap constructor); every attribute a copy (shallow or deep) duplicates is a cell "
+              "codecs (Morgan genetic maps lossless; the egmap file pair reproduces every extended map, marker names and function codes "
+              "included, and both map constructors keep the interpolation kind / fill value they are given - the two defects that were "
+              "repaired in the library are kept as refutations about the former definitions old_egmap_to / old_egmap_from / "
+              "old_egmap_ctor_kind; refutations for cM rounding, breeding-value location/scale, sorted variance-matrix labels, "
+              "absent labels, default arguments on the two sides of the genetic-map codecs); every attribute a copy (shallow or deep) duplicates is a cell "
               "allocated by that copy. Field lists, readers and copy modes (Gen/C16_Fields.v) and the kernel expressions on which the "
               "theorems turn (Gen/C16_Kernel.v: field name, the three delete conditions and the recursive call of h5py_File_write_dict, the "
               "decode condition of h5py_File_read_dict, the group-name normalisation of all 18 to_hdf5/from_hdf5 bodies, the unit conversions, "
-              "default units, constructor spline arguments, egmap column names and by-name/by-position column selections of the table readers, "
+              "default units, constructor spline arguments, egmap column names, the condition under which from_egmap reads an optional column and by-name/by-position column selections of the table readers, "
               "the long-table layout of the variance-matrix codec) are extracted from the source by ast translators on every run; the "
               "round-trip theorems are restated about the code written with the generated definitions, proved equal to the hand model by "
               "conversion, so a changed expression leaves the obligations undischarged whatever the sampled cases exercise. The models are "
@@ -38,7 +40,7 @@ LEVEL_NOTE = ("trusted: Coq kernel + vm_compute, PrimFloat primitives (data-fram
               "input of the model), cyvcf2 (VCF text -> records), numpy copy semantics (ndarray.__copy__/__deepcopy__ duplicate the buffer). "
               "Theorems are about the Gallina models; the tie to the code is differential on generated inputs plus the regenerated field tables. "
               "Not proved: general (all-size) round trips of the wide/long data-frame "
-              "codecs other than Morgan genetic maps and name-free egmap files, class-level (all attributes at once) copy equality. "
+              "codecs other than Morgan genetic maps and egmap files, class-level (all attributes at once) copy equality. "
               "DenseSquareTaxaTraitMatrix's own data-frame codec is checked by the predicate only (no Coq model); the CSV writers are "
               "observed through the frame pandas parses back.")
 TECHNIQUE = "Coq proof over executable store/codec/heap models; in-Coq vm_compute correspondence with the implementation; ast-generated field tables and kernel expressions"
@@ -866,12 +868,10 @@ def classify(case, out, clauses):
             if key not in ("SGMAP", "EGMAP") or case["opts"].get("units") not in ("cM", "centiMorgans"): return None
             if all(0.01 * (100.0 * x) == x for x in _fl(o["vrnt_genpos"])): return None
         if "gmap-default-units" in tags and not (key in ("SGMAP", "EGMAP") and case["opts"].get("defaults")): return None
-        if "egmap-names-lost" in tags and not (key == "EGMAP" and case["via"] == "egmap" and (o.get("vrnt_name") is not None or o.get("vrnt_fncode") is not None)): return None
-        if "egmap-spline-kind" in tags and not (key == "EGMAP" and o.get("_kind") and o.get("_kind_build") and o.get("_spline", True)): return None
         if "csv-float-parse" in tags:
             if case["via"] not in ("csv", "egmap", "egmap_file") or not any(_long_float(x) for v in o.values() if isinstance(v, dict) and v.get("t") == "f64" for x in _fl(v)): return None
-        for t, fid in (("gmap-default-units", "C16-gmap-default-units-mismatch"), ("egmap-names-lost", "C16-egmap-names-lost"),
-                       ("egmap-spline-kind", "C16-egmap-ctor-ignores-spline-kind"), ("csv-float-parse", "C16-csv-float-parse"), ("bv-location-scale", "C16-bv-pandas-location-scale"), ("vmat-sorted", "C16-vmat-pandas-sorted"),
+        for t, fid in (("gmap-default-units", "C16-gmap-default-units-mismatch"),
+                       ("csv-float-parse", "C16-csv-float-parse"), ("bv-location-scale", "C16-bv-pandas-location-scale"), ("vmat-sorted", "C16-vmat-pandas-sorted"),
                        ("gmap-cM-rounding", "C16-gmap-cM-rounding"), ("absent-labels", "C16-df-absent-labels")):
             if t in tags: return fid
     return None
@@ -1383,14 +1383,8 @@ def pred_df(case, out):
             if lost:
                 bad.append("[gmap-default-units] default arguments: %s not read back (from_pandas takes no such column by default)" % ",".join(lost))
                 rest = [f for f in rest if f not in lost]
-        if case["via"] == "egmap":
-            lost = [f for f in rest if f in ("vrnt_name", "vrnt_fncode") and o[f] is not None and b[f] is None]
-            if lost:
-                bad.append("[egmap-names-lost] to_egmap/from_egmap: %s lost (written under a column name from_egmap does not look for)" % ",".join(lost))
-                rest = [f for f in rest if f not in lost]
-        if key == "EGMAP" and "spline_kind" in rest and o["spline_kind"] != b["spline_kind"] and _scalar(b["spline_kind"]) == ("s", "linear"):
-            bad.append("[egmap-spline-kind] spline_kind %r given to the reader comes back as 'linear' (the constructor rebuilds the spline with build_spline's defaults)" % o["spline_kind"]["v"])
-            rest = [f for f in rest if f != "spline_kind"]
+        # (marker names / function codes through to_egmap -> from_egmap and the spline_kind handed to the ExtendedGeneticMap reader were
+        #  lost by the former code; both are repaired in the library, so a difference in them is an ordinary violation: "fields not reproduced")
         gp = [f for f in rest if f in ("vrnt_genpos", "spline")]
         if gp:
             ok = b["vrnt_genpos"] is not None and _ulps(_fl(b["vrnt_genpos"]), _fl(o["vrnt_genpos"]))
